@@ -1,6 +1,6 @@
 (* Props/C05.v — property C05: the batch processor delivers every accepted item exactly once,
    content intact, under a resource/scope/metric carrying the identity it arrived with. *)
-From Verif Require Import Base.ListX Batch.Split Batch.Shard.
+From Verif Require Import Base.ListX Batch.Split Batch.Shard Batch.Chan.
 
 (* splitTraces/splitLogs (d = 1) and splitMetrics (d = 2), for every forest and every size:
    the items of dest followed by the items left in src are the items of src — same items, same
@@ -51,3 +51,11 @@ Example C05_example_run :
   map (s_sent 1) (snd (run 1 c (init 1)
      [@Recv 1 [((1, 0), [((2, 0), [10; 11])])] 1 1; @Recv 1 [((1, 0), [((2, 0), [12; 13; 14; 15])])] 2 2; Timer; Final])) = [4; 2].
 Proof. split; [split; [right; cbn; lia|intros _; cbn; lia]|vm_compute; reflexivity]. Qed.
+
+(* The shutdown drain of the shard loop (receive until the input channel is empty) processes every request that was
+   queued in the channel or parked on it when the drain started — those are the Recv events that precede Final in the
+   event sequences of the theorems above — and leaves nothing behind. *)
+Theorem C05_shutdown_drain_complete : forall (item : Type) (c : chan item), wf item c ->
+  drain item (length (queued item c) + length (parked item c)) c = (queued item c ++ parked item c, {| queued := []; parked := [] |}).
+Proof. exact drain_complete. Qed.
+Print Assumptions C05_shutdown_drain_complete.
